@@ -633,10 +633,9 @@ Section CollapseAxis.
                length labels = nobs (orient a t) /\ oids (orient a t) = ids a t.
   Proof.
     destruct (collapse_o2o_inv _ _ _ _ _ _ _ _ Hc) as (_ & LE & c' & H1 & H2).
-    exists c'. repeat split; try assumption.
-    - apply wf_orient; exact W.
-    - unfold nobs. rewrite oids_orient. apply labels_of_length. exact LE.
-    - apply oids_orient.
+    exists c'. split; [exact H1|]. split; [exact H2|]. split; [apply wf_orient; exact W|].
+    split; [|apply oids_orient].
+    unfold nobs. rewrite oids_orient. apply labels_of_length. exact LE.
   Qed.
 
   Theorem collapse_ids :
